@@ -42,6 +42,8 @@ def main(argv):
         elif argv[i] == "--tier":
             tier = argv[i + 1]
             i += 2
+        elif argv[i] == "--write":
+            i += 1
         else:
             ids.append(argv[i])
             i += 1
@@ -69,8 +71,18 @@ def main(argv):
         finally:
             shutil.rmtree(tmp, ignore_errors=True)
             shutil.rmtree(out, ignore_errors=True)
+    if "--write" in argv or not ids:
+        with open(os.path.join(HERE, "mutants", "RESULTS.md"), "w") as f:
+            f.write("# Sensitivity protocol results (tools/mutate.py, quick tier, VERIF_SEED=%s)\n\n" % os.environ.get("VERIF_SEED", "1"))
+            f.write("| mutant | check | verdict | seconds | first failure |\n|---|---|---|---|---|\n")
+            for r in rows:
+                f.write("| %s | %s | %s | %.0f | %s |\n" % (r[0], r[1], r[2], r[3], r[4].replace("|", "\\|")[:140]))
+            killed = set(r[0] for r in rows if r[2] == "killed")
+            allm = set(r[0] for r in rows)
+            f.write("\n%d mutants, %d killed by at least one named check; not killed by any: %s\n" % (
+                len(allm), len(killed), ", ".join(sorted(allm - killed)) or "none"))
     return rows
 
 
 if __name__ == "__main__":
-    main(sys.argv[1:])
+    main([a for a in sys.argv[1:]])
